@@ -82,9 +82,9 @@ def _flavour_env(flavour):
 
 
 def _prune(flavour, keep):
-    """Remove builds of this flavour that have not been used for 3 hours
+    """Remove builds of this flavour that have not been used for 40 minutes
     (several checks / scratch self-tests may share the cache concurrently),
-    always keeping the 4 most recently used."""
+    always keeping the 6 most recently used."""
     try:
         ents = [e for e in os.listdir(BUILD_ROOT)
                 if e.endswith("-" + flavour) and
@@ -94,9 +94,9 @@ def _prune(flavour, keep):
     ents.sort(key=lambda e: os.path.getmtime(os.path.join(BUILD_ROOT, e)),
               reverse=True)
     now = time.time()
-    for e in ents[4:]:
+    for e in ents[6:]:
         p = os.path.join(BUILD_ROOT, e)
-        if e != keep and now - os.path.getmtime(p) > 3 * 3600:
+        if e != keep and now - os.path.getmtime(p) > 2400:
             shutil.rmtree(p, ignore_errors=True)
 
 
